@@ -43,6 +43,9 @@ CHECKS.update({
  "C14": ("exploration", "deterministic simulation: two-party history (program-side port writes, environment-side input changes with arbitrary f32 bit patterns) against a reference board model checked after every operation",
          "Sampled histories of port writes (direct and through running helper programs; every ICR source x polarity, UDR, UOR, 0xF3) interleaved with jumper/UIO/voltage/digital-input changes drawn from DAC grid points +-1 ulp, clamp edges and non-finite values; complete board status incl. interrupt flip-flop/source flag and fan period compared with R-BOARD after every operation; thorough sweeps all 2^32 bit patterns through each voltage setter.",
          "Trusted: R-BOARD written from the statement; DASR.FAN and DAISR bits 2-7 masked; UOR-on-input-pin effect and sticky source flag mirrored de facto; fan period within +-1 LSB.", "DESIGN.md 6 C14"),
+ "C07": ("fault_enumeration", "deterministic simulation with crash/restart injection: each kind of reset is injected after every prefix of a seeded history and at every clock edge inside its bursts; durable state (RAM, physical board inputs) must survive, everything else must equal a machine constructed afresh",
+         "Model-free: every prefix of each history x {cpu_reset, master_reset, load}: documented getters at power-on values; RAM/inputs/board/limits/step mode untouched as documented; full == against a machine built from Machine::new through public setters (covers every private field: pending writes, wait flag, micro-address, ALU latch, key flip-flop, timer); a reloaded machine runs cycle-for-cycle like Machine::new_with_program for a follow-up program.",
+         "Trusted: Machine::clone/PartialEq; values written to the getter-less UART/timer registers are known only for direct writes (program-driven ones are detected on the bus and disable the constructed-equality oracle for that history).", "DESIGN.md 6 C07"),
 })
 
 PENDING = {}
